@@ -688,6 +688,12 @@ func c19(_ []string) error {
 				continue
 			}
 
+			if s.Kind == "edge-empty" {
+				emit(c19Empty(s, ctor))
+
+				continue
+			}
+
 			emit(c19Run(e, s, ctor))
 		}
 
@@ -817,4 +823,82 @@ func c19Earlier(opts []util.Option) (overwritten int) {
 	}
 
 	return -1
+}
+
+// c19Empty: Options!EmptyScn - an empty list of failure strings is a value like any other: given later it wins (also over the
+// list of a platform definition), given earlier it loses.
+func c19Empty(s *c19Scn, ctor string) verdict {
+	v := verdict{ID: s.ID, Variant: ctor, OK: true, Nontrivial: true}
+	some := []string{"% Invalid input", "Error:"}
+
+	var got []string
+
+	var err error
+
+	var pan interface{}
+
+	func() {
+		defer func() { pan = recover() }()
+
+		var o []util.Option
+
+		switch s.First {
+		case "user-then-empty":
+			o = []util.Option{options.WithFailedWhenContains(some), options.WithFailedWhenContains([]string{})}
+		case "empty-then-user":
+			o = []util.Option{options.WithFailedWhenContains([]string{}), options.WithFailedWhenContains(some)}
+		default:
+			o = []util.Option{options.WithFailedWhenContains([]string{})}
+		}
+
+		switch ctor {
+		case "g", "c":
+			var g *generic.Driver
+
+			g, err = generic.NewDriver("h", o...)
+			if err == nil {
+				got = g.FailedWhenContains
+			}
+		case "n":
+			var n *network.Driver
+
+			n, err = network.NewDriver("h", append([]util.Option{options.WithPrivilegeLevels(stdLevels()), options.WithDefaultDesiredPriv("configuration")}, o...)...)
+			if err == nil {
+				got = n.FailedWhenContains
+			}
+		default:
+			y := "---\nplatform-type: 'verifg'\ndefault:\n  driver-type: 'generic'\n"
+			if s.First == "platform-then-empty" {
+				y += "  failed-when-contains:\n    - '% Invalid input'\n    - 'Error:'\n"
+			}
+
+			var p *platform.Platform
+
+			p, err = platform.NewPlatform([]byte(y), "h", o...)
+			if err == nil {
+				var g *generic.Driver
+
+				g, err = p.GetGenericDriver()
+				if err == nil {
+					got = g.FailedWhenContains
+				}
+			}
+		}
+	}()
+
+	want := 0
+	if s.First == "empty-then-user" {
+		want = len(some)
+	}
+
+	switch {
+	case pan != nil:
+		fail(&v, "C19:"+ctor+":panic", "constructor panicked for an empty list of failure strings (%s): %v", s.First, pan)
+	case err != nil:
+		fail(&v, "C19:"+ctor+":error:"+errClass(err), "constructor failed for an empty list of failure strings (%s): %v", s.First, err)
+	case len(got) != want:
+		fail(&v, "C19:"+ctor+":G.FailedWhenContains:empty-value:"+s.First, "failure strings given as %s: the driver holds %q", s.First, got)
+	}
+
+	return v
 }
